@@ -175,3 +175,11 @@ MANIFEST_TEXT["C08"] = dict(
          "the map preserved a run that ends with no alive guest span has an empty local map and every issued host span closed "
          "(C08_complete_run). Correspondence on a strict recording subscriber that flags any misuse.",
     note=_RECV_NOTE, technique="Lean 4 proof (id-discipline invariant over histories) + differential correspondence + strict-subscriber oracle")
+
+_CAP_RULE = ("capture suite: well-formed single-threaded programs (as C01) driven directly into Registry + capture layer(s); layer "
+             "filters from {none, level threshold, name predicate, target-prefix predicate}, optional global LevelFilter layer, "
+             "pass-through layers in every position, 1..3 capture layers, stale follows-from targets; the whole storage is dumped "
+             "through the public query API and every C17 law is cross-checked on it; non-trivial = >= 3 captured spans, depth >= 2 and "
+             ">= 1 captured event in the first layer; distinct by input text")
+for _p in ["C05", "C16", "C17"]:
+    PROPS[_p] = dict(suites=[("capture", {Q: 600, T: 40000})], rule=_CAP_RULE)
